@@ -53,6 +53,23 @@ type pathCtx struct {
 	fnCalls map[string]int
 	sinks map[*value][]value
 	outEvents []value
+	q *quick
+	budgetOn bool
+	budgetLimit int64
+	budgetMsg, budgetClass string
+	pending []pendingAssert
+	quickHits int
+}
+
+type sample struct {
+	Model  map[string]int64 `json:"model"`
+	Covers []string         `json:"covers"`
+	Notes  []string         `json:"notes,omitempty"`
+}
+
+type pendingAssert struct {
+	c          *term
+	msg, class string
 }
 
 type explorer struct {
@@ -68,7 +85,7 @@ type explorer struct {
 	violations []violation
 	inconclusive map[string]int
 	covers    map[string]int
-	samples   []map[string]int64
+	samples   []sample
 	sampleDecs [][]decision
 	asserts   int
 	decisions int
@@ -128,6 +145,7 @@ func (px *pathCtx) assertTerm(t *term) {
 	if t.op == "true" {
 		return
 	}
+	px.q.learn(t, true)
 	px.ensureDefined(t)
 	px.sv.send("(assert " + t.ref() + ")")
 	px.pcCount++
@@ -160,6 +178,10 @@ func (px *pathCtx) decide(c *term) bool {
 	if c.op == "false" {
 		return false
 	}
+	if v, known := px.q.eval(c); known {
+		px.quickHits++
+		return v == 1
+	}
 	if px.pos < len(px.prefix) {
 		d := px.prefix[px.pos]
 		px.pos++
@@ -174,6 +196,7 @@ func (px *pathCtx) decide(c *term) bool {
 		}
 		return d.B
 	}
+	px.flush()
 	px.pos++
 	if len(px.taken) > px.ex.cfg.MaxDepth {
 		panic(engineAbort{fmt.Sprintf("decision depth bound %d exceeded", px.ex.cfg.MaxDepth)})
@@ -201,6 +224,12 @@ func (px *pathCtx) concretize(t *term, signed bool) int64 {
 		}
 		return int64(t.cval)
 	}
+	if v, known := px.q.eval(t); known {
+		if signed {
+			return signExt(v, t.width)
+		}
+		return int64(v)
+	}
 	px.concSites++
 	for n := 0; ; n++ {
 		if n > px.ex.cfg.MaxConc {
@@ -221,6 +250,7 @@ func (px *pathCtx) concretize(t *term, signed bool) int64 {
 			px.assertTerm(px.tt.not(px.tt.eq(t, cv)))
 			continue
 		}
+		px.flush()
 		px.pos++
 		// ask the solver for a value
 		px.ensureDefined(t)
@@ -306,39 +336,72 @@ func (px *pathCtx) model() map[string]int64 {
 	return m
 }
 
-// check discharges an assertion: pc ⇒ c. On failure records a violation with a model.
+// check registers an assertion pc ⇒ c. Assertions are discharged in batches
+// at the next solver-decided branch point or at the end of the path (flush);
+// while a decision prefix is being replayed they were already discharged by
+// the path that enqueued the prefix, under a path condition this path shares.
 func (px *pathCtx) check(c *term, msg, class string) {
+	if px.pos < len(px.prefix) {
+		return
+	}
 	px.asserts++
 	if c.op == "true" {
 		return
 	}
-	nc := px.tt.not(c)
-	var r string
-	if nc.op == "true" {
-		r = "sat"
-		px.ensureDefined(nc)
-		px.sv.send("(push)")
-		rr := px.sv.checkSat()
-		if rr != "sat" {
-			px.sv.send("(pop)")
-			panic(engineAbort{"solver answered " + rr + " for a path condition assumed satisfiable"})
-		}
-	} else {
-		px.ensureDefined(nc)
-		px.sv.send("(push)")
-		px.sv.send("(assert " + nc.ref() + ")")
-		r = px.sv.checkSat()
+	if v, known := px.q.eval(c); known && v == 1 {
+		return
 	}
+	px.pending = append(px.pending, pendingAssert{c, msg, class})
+	if c.op == "false" {
+		px.flush()
+	}
+}
+
+// flush discharges the pending assertions against the current path condition.
+func (px *pathCtx) flush() {
+	if len(px.pending) == 0 {
+		return
+	}
+	pend := px.pending
+	px.pending = nil
+	conj := px.tt.tTrue()
+	for _, p := range pend {
+		conj = px.tt.and(conj, p.c)
+	}
+	if px.checkOne(conj) == nil {
+		return
+	}
+	for _, p := range pend {
+		if m := px.checkOne(p.c); m != nil {
+			px.recordViolation(p.msg, p.class, m, false)
+			panic(pathViolation{p.msg})
+		}
+	}
+	panic(engineAbort{"assertion batch failed but no single assertion did"})
+}
+
+// checkOne returns nil when pc ⇒ c, else a counter-model.
+func (px *pathCtx) checkOne(c *term) map[string]int64 {
+	nc := px.tt.not(c)
+	if nc.op == "false" {
+		return nil
+	}
+	px.ensureDefined(nc)
+	px.sv.send("(push)")
+	if nc.op != "true" {
+		px.sv.send("(assert " + nc.ref() + ")")
+	}
+	r := px.sv.checkSat()
 	if r == "sat" {
 		m := px.model()
 		px.sv.send("(pop)")
-		px.recordViolation(msg, class, m, false)
-		panic(pathViolation{msg})
+		return m
 	}
 	px.sv.send("(pop)")
 	if r != "unsat" {
-		panic(engineAbort{"solver answered " + r + " on assertion " + msg})
+		panic(engineAbort{"solver answered " + r + " on an assertion"})
 	}
+	return nil
 }
 
 func (px *pathCtx) recordViolation(msg, class string, m map[string]int64, isPanic bool) {
@@ -372,11 +435,18 @@ func (px *pathCtx) assume(c *term) {
 	if c.op == "false" {
 		panic(pathPruned{"assume(false)"})
 	}
+	if v, known := px.q.eval(c); known {
+		if v == 1 {
+			return
+		}
+		panic(pathPruned{"assumption false"})
+	}
 	if px.pos < len(px.prefix) {
 		// still following a prefix: the earlier run found it satisfiable here
 		px.assertTerm(c)
 		return
 	}
+	px.flush()
 	if px.satWith(c) != "sat" {
 		panic(pathPruned{"assumption unsatisfiable"})
 	}
@@ -457,4 +527,20 @@ func (ex *explorer) done(px *pathCtx, outcome string, reason string) {
 		ex.stopped = true
 	}
 	ex.cond.Broadcast()
+}
+
+// flushOnPanic discharges pending assertions when the target panicked; it
+// reports true when one of them failed (that assertion is then the finding).
+func (px *pathCtx) flushOnPanic() (failed bool) {
+	defer func() {
+		if r := recover(); r != nil {
+			if _, ok := r.(pathViolation); ok {
+				failed = true
+				return
+			}
+			failed = false
+		}
+	}()
+	px.flush()
+	return false
 }
